@@ -24,12 +24,12 @@ import (
 type vOp struct {
 	Op       string `json:"op"` // send | verify | adv
 	Pair     int    `json:"pair"`
-	Code     string `json:"code"`    // verify: right | wrong | other (another pair's code)
-	Hash     string `json:"hash"`    // verify: right | wrong | other | stale (hash of the previous send to this pair)
-	As       int    `json:"as"`      // verify: pair whose (area, phone) is presented (-1 = same as Pair)
+	Code     string `json:"code"`          // verify: right | wrong | other (another pair's code)
+	Hash     string `json:"hash"`          // verify: right | wrong | other | stale (hash of the previous send to this pair)
+	As       int    `json:"as"`            // verify: pair whose (area, phone) is presented (-1 = same as Pair)
 	Rep      int    `json:"rep,omitempty"` // send / verify: the operation is issued this many times in a row (0 = once): counters past 255 / 256
-	AdvSec   int    `json:"adv_sec"` // adv
-	AdvToKey string `json:"adv_to"`  // adv: "", or jump relative to a threshold: ttl- ttl+ min- min+ cnt- cnt+ (just before / after)
+	AdvSec   int    `json:"adv_sec"`       // adv
+	AdvToKey string `json:"adv_to"`        // adv: "", or jump relative to a threshold: ttl- ttl+ min- min+ cnt- cnt+ (just before / after)
 }
 
 type C19Scenario struct {
